@@ -223,11 +223,38 @@ def formula(d, op):
     return sb
 
 
+TINY = Fraction(1, 10 ** 9)
+
+
+def _magnitude_vs_tiny(d):
+    """d = +-(sqrt atom) -+ tau with 0 < tau <= TINY  ->  sign s such that d = s*(|x| - tau); else None."""
+    if len(d.t) != 2 or () not in d.t:
+        return None
+    c0 = d.t[()]
+    if not (0 < abs(c0) <= TINY):
+        return None
+    (m, c), = [(m, c) for m, c in d.t.items() if m != ()]
+    if len(m) != 1 or m[0][1] != 1 or W.kind[m[0][0]] != 'sqrt' or abs(c) != 1:
+        return None
+    if c > 0 and c0 < 0:
+        return 1
+    if c < 0 and c0 > 0:
+        return -1
+    return None
+
+
 def compare(d, op):
     """Called by Sym comparisons: d (op) 0."""
     if d.is_const():
         return _PYOPS[op](d.cval())
     ex = current()
+    if ex is not None and ex.generic_nonzero and op in ('<', '<=', '>', '>='):
+        s = _magnitude_vs_tiny(d)
+        if s is not None:
+            # cleaning thresholds: a symbolic coefficient is generic, i.e. its magnitude exceeds the (tiny) tolerance
+            ex.note_generic(d)
+            positive = (s == 1)          # d = |x| - tau > 0
+            return (op in ('>', '>=')) if positive else (op in ('<', '<='))
     if op in ('==', '!='):
         p = clear(d)[0]
         if not p.t:
@@ -286,6 +313,7 @@ class Explorer:
         self.max_paths = max_paths
         self.max_decisions = max_decisions
         self.generic_nonzero = generic_nonzero
+        self.abs_by_branch = not generic_nonzero   # generic mode: |x| is a sqrt atom so that cleaning thresholds are recognised
         self.timeout = query_timeout_ms or QUERY_TIMEOUT_MS[0]
         self.time_budget_s = time_budget_s
         self.paths = []
